@@ -3,6 +3,37 @@
 def _info0_pos(sx, v, meta):
     return v[0] == 'ok' and len(v[2]) > 0 and int(v[2][0]) > 0
 
+import os, re
+
+RACE_PROPS = set(['C16'])
+
+
+def shared_mutable_globals(repo):
+    """Heuristic scan: package-level variables of the library whose value is a slice, map, array, channel or
+    pointer (anything that can be written through from two solvers). Error sentinels and interface constants are fine."""
+    found = []
+    for pkg in ('solver', 'maxsat', 'explain', 'bf', '.'):
+        d = os.path.join(repo, pkg)
+        for fn in sorted(os.listdir(d)):
+            if not fn.endswith('.go') or fn.endswith('_test.go'):
+                continue
+            src = open(os.path.join(d, fn)).read()
+            src = re.sub(r'/\*.*?\*/', '', src, flags=re.S)
+            decls = []
+            for m in re.finditer(r'^var\s+(\w+)([^\n]*)$', src, re.M):
+                decls.append((m.group(1), m.group(2)))
+            for blk in re.finditer(r'^var\s*\((.*?)^\)', src, re.M | re.S):
+                for l in blk.group(1).splitlines():
+                    mm = re.match(r'\s+(\w+)(.*)$', l.split('//')[0])
+                    if mm:
+                        decls.append((mm.group(1), mm.group(2)))
+            for name, rest in decls:
+                rest = rest.split('//')[0]
+                if re.search(r'(\[\]|\bmap\[|\bchan\b|\bmake\(|\bnew\(|=\s*&|^\s*\*|\[\d+\])', rest):
+                    found.append(('shared-mutable-global', '%s/%s: var %s%s' % (pkg, fn, name, rest.strip()[:80])))
+    return found
+
+
 def _solve_nontrivial(sx, v, meta):
     # non-trivial: not decided by the empty problem, i.e. the case has at least 2 constraints
     return sx.count('(0 1 ') + sx.count('(1 ') + sx.count('(2 ') >= 2
@@ -16,6 +47,33 @@ def _hist_nontrivial(sx, v, meta):
     return v[0] == 'ok' and len(v[2]) > 0 and int(v[2][0]) >= 2
 
 PROPS = {
+    'C20': dict(
+        parts=[dict(harness='C20o', judge='C20o', cases=dict(quick=2500, thorough=25000), judge_module='Judge.J20', judge_fn='judge_C20o'),
+               dict(harness='C20m', judge='C20m', cases=dict(quick=1500, thorough=15000)),
+               dict(harness='C20e', judge='C20e', cases=dict(quick=1500, thorough=15000))],
+        rule='solver.Optimal on the C03 problems (API route), maxsat Optimal on WCNF instances, Enumerate on the C05 problems, each with '
+             'a result channel of capacity 0/0/1/3/64 and a consumer that sleeps 0, <200us or <2ms (seeded) between receives; the '
+             'consumer-side trace (values, close, return value) must be accepted by the protocol acceptor of the channel model, every '
+             'delivered result is judged (model of all constraints, true cost, strictly decreasing, last = oracle optimum; each model '
+             'once, count = oracle count); a deadlock shows as a timeout, a send on a closed channel or double close as a crash; '
+             'non-trivial = at least 2 results delivered',
+        nontrivial=lambda sx, v, meta: v[0] == 'ok' and len(v[2]) > 1 and int(v[2][1 if len(v[2]) > 2 else 0]) >= 2,
+        assumptions=['goroutine schedules are sampled (GOMAXPROCS 4, random consumer delays), not enumerated'],
+    ),
+    'C16': dict(
+        parts=[dict(harness='C16', judge='by-meta', cases=dict(quick=1600, thorough=16000), binary='gsh-race', nshards=4,
+                    extra_args=['-conc', '4'], env={'GORACE': 'halt_on_error=1 exitcode=66', 'GOMAXPROCS': ['1', '2', '8', '4']})],
+        static=shared_mutable_globals,
+        rule='4 harness processes built with -race (GOMAXPROCS 1, 2, 8, 4), each running 4 goroutines that take data-independent cases '
+             'from a mixed stream (Solve on CNF and PB, CountModels+Enumerate, Optimal/Minimize, MaxSAT, MUS extraction incl. '
+             'UnsatSubset, bf.Solve, AppendClause histories) at the same time; every result is judged exactly as in the sequential '
+             'checks C01-C11 (so each instance returns what it returns alone, up to the property-level relation); any race report '
+             'stops the process and is a violation; plus a static scan for package-level slices/maps/pointers in the library. '
+             'Non-trivial = every judged case',
+        nontrivial=lambda sx, v, meta: v[0] == 'ok',
+        assumptions=['interleavings are those the Go scheduler produced in this run; the race detector only sees executed accesses',
+                     'Verbose output is off'],
+    ),
     'C11': dict(
         judge='C11', judge_module='Judge.J11', judge_fn='judge_C11',
         cases=dict(quick=10000, thorough=100000),
